@@ -147,6 +147,44 @@ class SymFactory(object):
         self.st.files[name] = value
         return name
 
+    def ufunc(self, name):
+        from .interp import SUFun
+        return SUFun(name)
+
+    # reading the state (used by invariants / post-conditions written once for both factories)
+    def elem(self, arr, idx):
+        return arr.elem(self.st, tuple(idx))
+
+    def is_none(self, x):
+        if isinstance(x, SOpt):
+            return x.isnone
+        return x is None
+
+    def val(self, x):
+        return x.val if isinstance(x, SOpt) else x
+
+    def And(self, *xs):
+        from .sym import mk_and
+        return mk_and(*xs)
+
+    def Or(self, *xs):
+        from .sym import mk_or
+        return mk_or(*xs)
+
+    def Not(self, x):
+        from .sym import mk_not
+        return mk_not(x)
+
+    def ite(self, c, a, b):
+        from .sym import mk_ite
+        return mk_ite(c, a, b)
+
+    def eq(self, a, b):
+        from .sym import mk_eq
+        return mk_eq(a, b)
+
+    PI = None
+
     def lam(self, src, **free):
         """A Python lambda (source text) closed over the given free variables."""
         import ast
@@ -166,6 +204,17 @@ class Opaque(object):
 
     def __repr__(self):
         return 'Opaque(%r)' % (self.name,)
+
+
+class Applied(object):
+    """Concrete user callable for PairTable.apply: wraps its argument."""
+
+    def __init__(self, name):
+        self.name = name
+
+    def __call__(self, x):
+        o = Opaque((self.name, getattr(x, 'name', repr(x))))
+        return o
 
 
 class ConcFactory(object):
@@ -315,6 +364,33 @@ class ConcFactory(object):
 
     def ref(self, name):
         return Opaque(name)
+
+    def ufunc(self, name):
+        return Applied(name)
+
+    def elem(self, arr, idx):
+        return arr[tuple(idx)]
+
+    def is_none(self, x):
+        return x is None
+
+    def val(self, x):
+        return x
+
+    def And(self, *xs):
+        return all(xs)
+
+    def Or(self, *xs):
+        return any(xs)
+
+    def Not(self, x):
+        return not x
+
+    def ite(self, c, a, b):
+        return a if c else b
+
+    def eq(self, a, b):
+        return abs(a - b) <= 1e-9 * max(1.0, abs(a), abs(b))
 
     def file(self, name, value):
         import os
